@@ -1,3 +1,585 @@
-import AriesVerif.C11.Model
+import AriesVerif.C11.Lemmas
+/-! # C11 — property theorems
+
+`Refines vol istep inv abs` is "behaves like the documented key-value store on every operation"; by
+`Refines.run_eq` it extends to every history. The wrapper theorems assume nothing about the wrapped
+provider except `Refines` — "over any conforming provider", including one that already holds data
+(the start state is any state satisfying the invariant). -/
 namespace C11
+
+/-! ## the in-memory provider -/
+
+theorem noDup_inj {s : Store} (h : NoDup s) {e e' : Entry} (he : e ∈ s) (he' : e' ∈ s) (hk : e.key = e'.key) :
+    e = e' := by
+  induction s with
+  | nil => simp at he
+  | cons x xs ih =>
+    unfold NoDup at h
+    simp only [List.map_cons, List.nodup_cons, List.mem_map, not_exists, not_and] at h
+    rcases List.mem_cons.mp he with h1 | h1 <;> rcases List.mem_cons.mp he' with h2 | h2
+    · rw [h1, h2]
+    · subst h1; exact absurd hk.symm (h.1 e' h2)
+    · subst h2; exact absurd hk (h.1 e h1)
+    · exact ih h.2 h1 h2
+
+theorem length_filter_eq_iff {α : Type} (p : α → Bool) (l : List α) :
+    ((l.filter p).length == l.length) = l.all p := by
+  induction l with
+  | nil => simp
+  | cons a l ih =>
+    by_cases ha : p a = true
+    · simp only [List.filter_cons, ha, if_true, List.length_cons, List.all_cons, Bool.true_and]
+      rw [← ih]
+      by_cases h : (List.filter p l).length = l.length <;> simp [h]
+    · have hle := List.length_filter_le p l
+      have : ¬ (List.filter p l).length = l.length + 1 := by omega
+      simp [List.filter_cons, ha, this]
+
+theorem Mem.contains_matching {s : Store} (h : NoDup s) {e : Entry} (he : e ∈ s) (c : Crit) :
+    (Mem.matching s c).contains e.key = c.sat e.tags := by
+  unfold Mem.matching
+  by_cases hs : c.sat e.tags = true
+  · rw [hs]
+    simp only [List.contains_iff_mem, List.mem_map, List.mem_filter]
+    exact ⟨e, ⟨he, hs⟩, rfl⟩
+  · have hs' : c.sat e.tags = false := by simpa using hs
+    rw [hs']
+    apply Bool.eq_false_iff.mpr
+    intro hc
+    simp only [List.contains_iff_mem, List.mem_map, List.mem_filter] at hc
+    obtain ⟨e', ⟨he', hsat⟩, hk⟩ := hc
+    have := noDup_inj h he' he hk
+    subst this
+    exact hs hsat
+
+/-- `commonDBEntries` computes the conjunction: an entry is returned iff it satisfies every criterion -/
+theorem Mem.common_eq {s : Store} (h : NoDup s) (q : Query) :
+    Mem.common s q = s.filter fun e => q.all (·.sat e.tags) := by
+  unfold Mem.common
+  apply List.filter_congr
+  intro e he
+  rw [length_filter_eq_iff]
+  congr 1
+  funext c
+  exact Mem.contains_matching h he c
+
+/-- **mem refines the contract** (from any state with pairwise distinct keys, e.g. the empty one) -/
+theorem mem_refines : Refines true Mem.step NoDup id := by
+  have key : ∀ s op, NoDup s → Mem.step s op = step true s op := by
+    intro s op h
+    cases op with
+    | query q =>
+      cases q with
+      | none => rfl
+      | some q => simp only [Mem.step, step, Mem.common_eq h]
+    | _ => rfl
+  refine ⟨?_, ?_, ?_⟩
+  · intro s op h _; rw [key s op h]; rfl
+  · intro s op h _; rw [key s op h]; rfl
+  · intro s op h _; rw [key s op h]; exact step_noDup true h op
+
+/-- LevelDB (observational model) -/
+theorem ldb_refines : Refines false Ldb.step (fun _ => True) id :=
+  ⟨fun _ _ _ _ => rfl, fun _ _ _ _ => rfl, fun _ _ _ _ => trivial⟩
+
+/-! ## the caching wrapper over ANY conforming main and cache provider -/
+namespace Cached
+variable {M C : Machine} {volM volC : Bool} {invM : M.σ → Prop} {invC : C.σ → Prop}
+  {absM : M.σ → Store} {absC : C.σ → Store}
+
+/-- invariant: both providers are in valid states, stored tags are well formed, the cache is coherent.
+    It holds for ANY pre-populated main store as long as the cache starts empty (`Inv.of_empty_cache`). -/
+def Inv (invM : M.σ → Prop) (invC : C.σ → Prop) (absM : M.σ → Store) (absC : C.σ → Store) (s : M.σ × C.σ) : Prop :=
+  invM s.1 ∧ invC s.2 ∧ TagsOK (absM s.1) ∧ Coherent (absM s.1) (absC s.2)
+
+theorem Inv.of_empty_cache (m : M.σ) (c : C.σ) (hm : invM m) (hc : invC c) (ht : TagsOK (absM m)) (he : absC c = []) :
+    Inv invM invC absM absC (m, c) := ⟨hm, hc, ht, by rw [he]; exact coherent_nil _⟩
+
+theorem step_ok (hM : Refines volM M.step invM absM) (hC : Refines volC C.step invC absC)
+    (hvol : volM = true → volC = true) (s : M.σ × C.σ) (hi : Inv invM invC absM absC s) (op : Op) (hw : op.wf = true) :
+    (Cached.step M C s op).2 = (C11.step volM (absM s.1) op).2 ∧
+    absM (Cached.step M C s op).1.1 = (C11.step volM (absM s.1) op).1 ∧
+    Inv invM invC absM absC (Cached.step M C s op).1 := by
+  obtain ⟨him, hic, hto, hco⟩ := hi
+  have mo := fun o (h : Op.wf o = true) => hM.out_eq s.1 o him h
+  have ma := fun o (h : Op.wf o = true) => hM.abs_eq s.1 o him h
+  have mi := fun o (h : Op.wf o = true) => hM.inv_pres s.1 o him h
+  have co := fun o (h : Op.wf o = true) => hC.out_eq s.2 o hic h
+  have ca := fun o (h : Op.wf o = true) => hC.abs_eq s.2 o hic h
+  have ci := fun o (h : Op.wf o = true) => hC.inv_pres s.2 o hic h
+  cases op with
+  | put k v ts =>
+    have mo := mo (.put k v ts) rfl; have ma := ma (.put k v ts) rfl; have mi := mi (.put k v ts) rfl
+    have co := co (.put k v ts) rfl; have ca := ca (.put k v ts) rfl; have ci := ci (.put k v ts) rfl
+    simp only [Cached.step]
+    by_cases htv : tagsValid ts = true
+    · simp only [htv, Bool.not_true, Bool.false_eq_true, if_false]
+      cases v with
+      | none =>
+        simp only [C11.step] at mo ma ⊢
+        rw [mo]; dsimp only
+        exact ⟨rfl, ma, mi, hic, by rw [ma]; exact hto, by rw [ma]; exact hco⟩
+      | some v =>
+        by_cases hkb : (k == "") = true
+        · simp only [C11.step, hkb, Bool.true_or, if_true] at mo ma ⊢
+          rw [mo]; dsimp only
+          exact ⟨rfl, ma, mi, hic, by rw [ma]; exact hto, by rw [ma]; exact hco⟩
+        · have hkb : (k == "") = false := by simpa using hkb
+          simp only [C11.step, hkb, htv, Bool.not_true, Bool.or_self, Bool.false_eq_true, if_false] at mo ma co ca ⊢
+          rw [mo]; dsimp only
+          refine ⟨rfl, ma, mi, ci, ?_, ?_⟩
+          · rw [ma]; exact tagsOK_insert hto _ htv
+          · rw [ma, ca]; exact coherent_insert hco _
+    · have htv' : tagsValid ts = false := by simpa using htv
+      simp only [htv', Bool.not_false, if_true]
+      refine ⟨?_, ?_, him, hic, hto, hco⟩
+      · cases v <;> simp [C11.step, htv']
+      · cases v <;> simp [C11.step, htv']
+  | get k =>
+    have co := co (.get k) rfl; have ca := ca (.get k) rfl; have ci := ci (.get k) rfl
+    have mo := mo (.get k) rfl; have ma := ma (.get k) rfl; have mi := mi (.get k) rfl
+    simp only [Cached.step]
+    by_cases hkb : (k == "") = true
+    · simp only [C11.step, hkb, if_true] at co ca ⊢
+      rw [co]; dsimp only
+      exact ⟨rfl, rfl, him, ci, hto, by rw [ca]; exact hco⟩
+    · have hkb : (k == "") = false := by simpa using hkb
+      simp only [C11.step, hkb, Bool.false_eq_true, if_false] at co ca mo ma ⊢
+      cases hb : lookup (absC s.2) k with
+      | some e =>
+        have hae := hco k e hb
+        simp only [hb] at co ca
+        simp only [hae]
+        rw [co]; dsimp only
+        exact ⟨rfl, rfl, him, ci, hto, by rw [ca]; exact hco⟩
+      | none =>
+        simp only [hb] at co ca
+        rw [co]; dsimp only
+        cases hal : lookup (absM s.1) k with
+        | none =>
+          simp only [hal] at mo ma
+          rw [mo]; dsimp only
+          exact ⟨rfl, ma, mi, ci, by rw [ma]; exact hto, by rw [ma, ca]; exact hco⟩
+        | some e =>
+          simp only [hal] at mo ma
+          rw [mo]; dsimp only
+          -- GetTags on the main store
+          have to := hM.out_eq _ (.getTags k) mi rfl
+          have ta := hM.abs_eq _ (.getTags k) mi rfl
+          have ti := hM.inv_pres _ (.getTags k) mi rfl
+          simp only [C11.step, hkb, Bool.false_eq_true, if_false, ma, hal] at to ta
+          rw [to]; dsimp only
+          -- Put into the cache
+          have hte : tagsValid e.tags = true := hto e (lookup_mem hal)
+          have po := hC.out_eq _ (.put k (some e.val) e.tags) ci rfl
+          have pa := hC.abs_eq _ (.put k (some e.val) e.tags) ci rfl
+          have pi := hC.inv_pres _ (.put k (some e.val) e.tags) ci rfl
+          simp only [C11.step, hkb, hte, Bool.not_true, Bool.or_self, Bool.false_eq_true, if_false, ca] at po pa
+          rw [po]; dsimp only
+          refine ⟨rfl, ta, ti, pi, by rw [ta]; exact hto, ?_⟩
+          rw [ta, pa]
+          have hek := lookup_key hal
+          have : (⟨k, e.val, e.tags⟩ : Entry) = e := by cases e; simp_all
+          rw [this]
+          exact coherent_fill hco hal
+  | getTags k =>
+    have co := co (.getTags k) rfl; have ca := ca (.getTags k) rfl; have ci := ci (.getTags k) rfl
+    have mo := mo (.getTags k) rfl; have ma := ma (.getTags k) rfl; have mi := mi (.getTags k) rfl
+    simp only [Cached.step]
+    by_cases hkb : (k == "") = true
+    · simp only [C11.step, hkb, if_true] at co ca ⊢
+      rw [co]; dsimp only
+      exact ⟨rfl, rfl, him, ci, hto, by rw [ca]; exact hco⟩
+    · have hkb : (k == "") = false := by simpa using hkb
+      simp only [C11.step, hkb, Bool.false_eq_true, if_false] at co ca mo ma ⊢
+      cases hb : lookup (absC s.2) k with
+      | some e =>
+        have hae := hco k e hb
+        simp only [hb] at co ca
+        simp only [hae]
+        rw [co]; dsimp only
+        exact ⟨rfl, rfl, him, ci, hto, by rw [ca]; exact hco⟩
+      | none =>
+        simp only [hb] at co ca
+        rw [co]; dsimp only
+        refine ⟨mo, ?_, mi, ci, ?_, ?_⟩
+        · rw [ma]
+        · rw [ma]; cases lookup (absM s.1) k <;> exact hto
+        · rw [ma, ca]; cases lookup (absM s.1) k <;> exact hco
+  | getBulk ks =>
+    have mo := mo (.getBulk ks) rfl; have ma := ma (.getBulk ks) rfl; have mi := mi (.getBulk ks) rfl
+    simp only [Cached.step]
+    have hst : (C11.step volM (absM s.1) (.getBulk ks)).1 = absM s.1 := by simp only [C11.step]; split <;> rfl
+    exact ⟨mo, ma, mi, hic, by rw [ma, hst]; exact hto, by rw [ma, hst]; exact hco⟩
+  | query q =>
+    have mo := mo (.query q) rfl; have ma := ma (.query q) rfl; have mi := mi (.query q) rfl
+    simp only [Cached.step]
+    have hst : (C11.step volM (absM s.1) (.query q)).1 = absM s.1 := by cases q <;> rfl
+    exact ⟨mo, ma, mi, hic, by rw [ma, hst]; exact hto, by rw [ma, hst]; exact hco⟩
+  | delete k =>
+    have mo := mo (.delete k) rfl; have ma := ma (.delete k) rfl; have mi := mi (.delete k) rfl
+    have co := co (.delete k) rfl; have ca := ca (.delete k) rfl; have ci := ci (.delete k) rfl
+    simp only [Cached.step]
+    by_cases hkb : (k == "") = true
+    · simp only [C11.step, hkb, if_true] at mo ma ⊢
+      rw [mo]; dsimp only
+      exact ⟨rfl, ma, mi, hic, by rw [ma]; exact hto, by rw [ma]; exact hco⟩
+    · have hkb : (k == "") = false := by simpa using hkb
+      simp only [C11.step, hkb, Bool.false_eq_true, if_false] at mo ma co ca ⊢
+      rw [mo]; dsimp only
+      exact ⟨rfl, ma, mi, ci, by rw [ma]; exact tagsOK_erase hto _, by rw [ma, ca]; exact coherent_erase hco _⟩
+  | batch ops =>
+    have mo := mo (.batch ops) hw; have ma := ma (.batch ops) hw; have mi := mi (.batch ops) hw
+    have co := co (.batch ops) hw; have ca := ca (.batch ops) hw; have ci := ci (.batch ops) hw
+    simp only [Cached.step]
+    by_cases hv : batchValid ops = true
+    · simp only [C11.step, hv, if_true] at mo ma co ca ⊢
+      rw [mo]; dsimp only
+      exact ⟨rfl, ma, mi, ci, by rw [ma]; exact tagsOK_foldl hto _ hw, by rw [ma, ca]; exact coherent_foldl hco _⟩
+    · simp only [C11.step, hv, Bool.false_eq_true, if_false] at mo ma ⊢
+      rw [mo]; dsimp only
+      exact ⟨rfl, ma, mi, hic, by rw [ma]; exact hto, by rw [ma]; exact hco⟩
+  | flush =>
+    have ma := ma .flush rfl; have mi := mi .flush rfl
+    have ca := ca .flush rfl; have ci := ci .flush rfl
+    simp only [Cached.step]
+    simp only [C11.step] at ma ca ⊢
+    exact ⟨trivial, ma, mi, ci, by rw [ma]; exact hto, by rw [ma, ca]; exact hco⟩
+  | reopen =>
+    have ma := ma .reopen rfl; have mi := mi .reopen rfl
+    have ca := ca .reopen rfl; have ci := ci .reopen rfl
+    simp only [Cached.step]
+    simp only [C11.step] at ma ca ⊢
+    refine ⟨trivial, ma, mi, ci, ?_, ?_⟩
+    · rw [ma]; split
+      · intro e he; simp at he
+      · exact hto
+    · rw [ma, ca]
+      cases hvm : volM with
+      | true => rw [hvol hvm]; exact coherent_nil _
+      | false =>
+        cases volC with
+        | true => exact coherent_nil _
+        | false => exact hco
+
+/-- **the caching wrapper refines the contract over any conforming providers**, provided the cache is not more
+    durable than the main provider (otherwise it would outlive the data it mirrors) -/
+theorem cached_refines (hM : Refines volM M.step invM absM) (hC : Refines volC C.step invC absC)
+    (hvol : volM = true → volC = true) :
+    Refines volM (Cached.step M C) (Inv invM invC absM absC) (fun s => absM s.1) :=
+  ⟨fun s op hi hw => (step_ok hM hC hvol s hi op hw).1,
+   fun s op hi hw => (step_ok hM hC hvol s hi op hw).2.1,
+   fun s op hi hw => (step_ok hM hC hvol s hi op hw).2.2⟩
+
+end Cached
+
+/-! ## the batching wrapper over ANY conforming provider, for any size limit (including ≤ 0) -/
+namespace Batched
+variable {U : Machine} {vol : Bool} {invU : U.σ → Prop} {absU : U.σ → Store}
+
+def opOK (o : BatchOp) : Bool := o.key != "" && tagsValid o.tags
+
+/-- invariant: the wrapped provider is in a valid state and every queued operation passed the input checks -/
+def Inv (invU : U.σ → Prop) (s : St U) : Prop := invU s.under ∧ s.pending.all opOK = true
+
+/-- what the store *means*: the wrapped provider's content with the queued operations applied in order -/
+def abs (absU : U.σ → Store) (s : St U) : Store := s.pending.foldl applyBatchOp (absU s.under)
+
+theorem all_opOK_split {ops : List BatchOp} (h : ops.all opOK = true) :
+    ops.all (fun o => o.key != "") = true ∧ ops.all (fun o => tagsValid o.tags) = true := by
+  simp only [List.all_eq_true, opOK, Bool.and_eq_true] at h ⊢
+  exact ⟨fun o ho => (h o ho).1, fun o ho => (h o ho).2⟩
+
+theorem flush_ok (hU : Refines vol U.step invU absU) (s : St U) (hi : Inv invU s) :
+    (flush U s).2 = true ∧ abs absU (flush U s).1 = abs absU s ∧ Inv invU (flush U s).1 ∧
+    (s.pending ≠ [] → (flush U s).1.pending = []) ∧ (s.pending = [] → (flush U s).1 = s) := by
+  obtain ⟨hiu, hp⟩ := hi
+  unfold flush
+  cases hpe : s.pending with
+  | nil => simp [hpe, Inv, hiu]
+  | cons o os =>
+    have hsp := all_opOK_split hp
+    rw [hpe] at hsp
+    have hwf : (Op.batch (o :: os)).wf = true := hsp.2
+    have hbv : batchValid (o :: os) = true := by
+      simp only [batchValid, List.isEmpty_cons, Bool.not_false, Bool.true_and]; exact hsp.1
+    have uo := hU.out_eq s.under (.batch (o :: os)) hiu hwf
+    have ua := hU.abs_eq s.under (.batch (o :: os)) hiu hwf
+    have ui := hU.inv_pres s.under (.batch (o :: os)) hiu hwf
+    simp only [C11.step, hbv, if_true] at uo ua
+    simp only [List.isEmpty_cons, Bool.false_eq_true, if_false]
+    rw [uo]; dsimp only
+    refine ⟨rfl, ?_, ⟨ui, by simp⟩, fun _ => rfl, fun h => by simp at h⟩
+    simp only [abs, List.foldl_nil, ua, hpe]
+
+theorem enqueue_ok (hU : Refines vol U.step invU absU) (limit : Int) (s : St U) (hi : Inv invU s) (o : BatchOp)
+    (ho : opOK o = true) :
+    (enqueue U limit s o).2 = true ∧ abs absU (enqueue U limit s o).1 = applyBatchOp (abs absU s) o ∧
+    Inv invU (enqueue U limit s o).1 := by
+  have hi' : Inv invU (⟨s.under, s.pending ++ [o]⟩ : St U) := ⟨hi.1, by simp [List.all_append, hi.2, ho]⟩
+  have habs : abs absU (⟨s.under, s.pending ++ [o]⟩ : St U) = applyBatchOp (abs absU s) o := by
+    simp [abs, List.foldl_append]
+  unfold enqueue
+  dsimp only
+  split
+  · obtain ⟨h1, h2, h3, _⟩ := flush_ok hU _ hi'
+    exact ⟨h1, by rw [h2, habs], h3⟩
+  · exact ⟨rfl, habs, hi'⟩
+
+theorem enqueueAll_ok (hU : Refines vol U.step invU absU) (limit : Int) (s : St U) (hi : Inv invU s)
+    (ops : List BatchOp) (ho : ops.all opOK = true) :
+    (enqueueAll U limit s ops).2 = true ∧ abs absU (enqueueAll U limit s ops).1 = ops.foldl applyBatchOp (abs absU s) ∧
+    Inv invU (enqueueAll U limit s ops).1 := by
+  induction ops generalizing s with
+  | nil => exact ⟨rfl, rfl, hi⟩
+  | cons o os ih =>
+    simp only [List.all_cons, Bool.and_eq_true] at ho
+    obtain ⟨e1, e2, e3⟩ := enqueue_ok hU limit s hi o ho.1
+    simp only [enqueueAll, e1, if_true, List.foldl_cons]
+    obtain ⟨a1, a2, a3⟩ := ih _ e3 ho.2
+    exact ⟨a1, by rw [a2, e2], a3⟩
+
+theorem step_ok (hU : Refines vol U.step invU absU) (limit : Int) (s : St U) (hi : Inv invU s) (op : Op)
+    (hw : op.wf = true) :
+    (Batched.step U limit s op).2 = (C11.step vol (abs absU s) op).2 ∧
+    abs absU (Batched.step U limit s op).1 = (C11.step vol (abs absU s) op).1 ∧
+    Inv invU (Batched.step U limit s op).1 := by
+  -- reads: flush, then ask the wrapped provider
+  have read : ∀ o : Op, o.wf = true → (C11.step vol (abs absU s) o).1 = abs absU s →
+      (let r := flush U s; if r.2 then let u := U.step r.1.under o; ((⟨u.1, r.1.pending⟩ : St U), u.2) else (r.1, Out.invalid)).2
+          = (C11.step vol (abs absU s) o).2 ∧
+      abs absU (let r := flush U s; if r.2 then let u := U.step r.1.under o; ((⟨u.1, r.1.pending⟩ : St U), u.2) else (r.1, Out.invalid)).1
+          = (C11.step vol (abs absU s) o).1 ∧
+      Inv invU (let r := flush U s; if r.2 then let u := U.step r.1.under o; ((⟨u.1, r.1.pending⟩ : St U), u.2) else (r.1, Out.invalid)).1 := by
+    intro o how hst
+    obtain ⟨f1, f2, f3, f4, f5⟩ := flush_ok hU s hi
+    have hpend : (flush U s).1.pending = [] := by
+      by_cases hp : s.pending = []
+      · rw [f5 hp]; exact hp
+      · exact f4 hp
+    have habs : absU (flush U s).1.under = abs absU s := by
+      rw [← f2]; simp [abs, hpend]
+    dsimp only
+    simp only [f1, if_true]
+    have uo := hU.out_eq _ o f3.1 how
+    have ua := hU.abs_eq _ o f3.1 how
+    have ui := hU.inv_pres _ o f3.1 how
+    rw [habs] at uo ua
+    refine ⟨uo, ?_, ui, by simp [hpend]⟩
+    simp only [abs, hpend, List.foldl_nil]
+    exact ua
+  cases op with
+  | put k v ts =>
+    cases v with
+    | none => exact ⟨rfl, rfl, hi⟩
+    | some v =>
+      simp only [Batched.step, C11.step]
+      by_cases hc : (k == "" || !tagsValid ts) = true
+      · simp only [hc, if_true]; exact ⟨trivial, trivial, hi⟩
+      · have hc' : (k == "" || !tagsValid ts) = false := by simpa using hc
+        simp only [hc', Bool.false_eq_true, if_false]
+        have ho : opOK ⟨k, some v, ts⟩ = true := by
+          simp only [Bool.or_eq_false_iff, Bool.not_eq_false', beq_eq_false_iff_ne] at hc'
+          simp [opOK, hc'.1, hc'.2]
+        obtain ⟨e1, e2, e3⟩ := enqueue_ok hU limit s hi ⟨k, some v, ts⟩ ho
+        exact ⟨by simp [e1, okOr], by rw [e2]; rfl, e3⟩
+  | delete k =>
+    simp only [Batched.step, C11.step]
+    by_cases hc : (k == "") = true
+    · simp only [hc, if_true]; exact ⟨trivial, trivial, hi⟩
+    · have hc' : (k == "") = false := by simpa using hc
+      simp only [hc', Bool.false_eq_true, if_false]
+      have ho : opOK ⟨k, none, []⟩ = true := by
+        simp only [beq_eq_false_iff_ne] at hc'
+        simp [opOK, hc', tagsValid]
+      obtain ⟨e1, e2, e3⟩ := enqueue_ok hU limit s hi ⟨k, none, []⟩ ho
+      exact ⟨by simp [e1, okOr], by rw [e2]; rfl, e3⟩
+  | batch ops =>
+    simp only [Batched.step, C11.step]
+    by_cases hv : batchValid ops = true
+    · simp only [hv, if_true]
+      have ho : ops.all opOK = true := by
+        simp only [batchValid, Bool.and_eq_true] at hv
+        simp only [Op.wf] at hw
+        simp only [List.all_eq_true, opOK, Bool.and_eq_true] at hv hw ⊢
+        exact fun o hm => ⟨hv.2 o hm, hw o hm⟩
+      obtain ⟨a1, a2, a3⟩ := enqueueAll_ok hU limit s hi ops ho
+      exact ⟨by simp [a1, okOr], a2, a3⟩
+    · simp only [hv, Bool.false_eq_true, if_false]; exact ⟨trivial, trivial, hi⟩
+  | flush =>
+    obtain ⟨f1, f2, f3, _⟩ := flush_ok hU s hi
+    simp only [Batched.step, C11.step]
+    exact ⟨by simp [f1, okOr], f2, f3⟩
+  | reopen =>
+    obtain ⟨f1, f2, f3, f4, f5⟩ := flush_ok hU s hi
+    have hpend : (flush U s).1.pending = [] := by
+      by_cases hp : s.pending = []
+      · rw [f5 hp]; exact hp
+      · exact f4 hp
+    have habs : absU (flush U s).1.under = abs absU s := by
+      rw [← f2]; simp [abs, hpend]
+    simp only [Batched.step, C11.step, f1, if_true]
+    have ua := hU.abs_eq _ .reopen f3.1 rfl
+    have ui := hU.inv_pres _ .reopen f3.1 rfl
+    simp only [C11.step, habs] at ua
+    refine ⟨trivial, ?_, ui, by simp [hpend]⟩
+    simp only [abs, hpend, List.foldl_nil]
+    exact ua
+  | get k => exact read (.get k) rfl (by simp only [C11.step]; split; rfl; split <;> rfl)
+  | getTags k => exact read (.getTags k) rfl (by simp only [C11.step]; split; rfl; split <;> rfl)
+  | getBulk ks => exact read (.getBulk ks) rfl (by simp only [C11.step]; split <;> rfl)
+  | query q => exact read (.query q) rfl (by cases q <;> rfl)
+
+/-- **the batching wrapper refines the contract over any conforming provider, for every size limit** -/
+theorem batched_refines (hU : Refines vol U.step invU absU) (limit : Int) :
+    Refines vol (Batched.step U limit) (Inv invU) (abs absU) :=
+  ⟨fun s op hi hw => (step_ok hU limit s hi op hw).1,
+   fun s op hi hw => (step_ok hU limit s hi op hw).2.1,
+   fun s op hi hw => (step_ok hU limit s hi op hw).2.2⟩
+
+end Batched
+
+/-! ## the formatting wrapper (observational model) -/
+namespace Formatted
+variable {U : Machine} {vol : Bool} {invU : U.σ → Prop} {absU : U.σ → Store}
+
+theorem bulkByGets_ok (hU : Refines vol U.step invU absU) (s : U.σ) (hi : invU s) (ks : List Key)
+    (hk : ks.any (· == "") = false) :
+    (bulkByGets U s ks).2 = ks.map (fun k => (lookup (absU s) k).map (·.val)) ∧
+    absU (bulkByGets U s ks).1 = absU s ∧ invU (bulkByGets U s ks).1 := by
+  induction ks generalizing s with
+  | nil => exact ⟨rfl, rfl, hi⟩
+  | cons k ks ih =>
+    simp only [List.any_cons, Bool.or_eq_false_iff] at hk
+    have go := hU.out_eq s (.get k) hi rfl
+    have ga := hU.abs_eq s (.get k) hi rfl
+    have gi := hU.inv_pres s (.get k) hi rfl
+    simp only [C11.step, hk.1, Bool.false_eq_true, if_false] at go ga
+    have ga' : absU (U.step s (.get k)).1 = absU s := by rw [ga]; cases lookup (absU s) k <;> rfl
+    obtain ⟨i1, i2, i3⟩ := ih _ gi hk.2
+    simp only [bulkByGets, List.map_cons]
+    refine ⟨?_, by rw [i2, ga'], i3⟩
+    rw [i1, ga', go]
+    cases lookup (absU s) k <;> rfl
+
+/-- over a conforming provider the (observational) formatting wrapper is conforming, in both key modes -/
+theorem formatted_refines (hU : Refines vol U.step invU absU) (det : Bool) :
+    Refines vol (Formatted.step U det) invU absU := by
+  have key : ∀ s op, invU s → op.wf = true →
+      (Formatted.step U det s op).2 = (C11.step vol (absU s) op).2 ∧
+      absU (Formatted.step U det s op).1 = (C11.step vol (absU s) op).1 ∧ invU (Formatted.step U det s op).1 := by
+    intro s op hi hw
+    cases op with
+    | getBulk ks =>
+      simp only [Formatted.step]
+      cases det with
+      | true => simp only [if_true]; exact ⟨hU.out_eq s _ hi hw, hU.abs_eq s _ hi hw, hU.inv_pres s _ hi hw⟩
+      | false =>
+        simp only [Bool.false_eq_true, if_false, C11.step]
+        by_cases hc : (ks.isEmpty || ks.any (· == "")) = true
+        · simp only [hc, if_true]; exact ⟨trivial, trivial, hi⟩
+        · have hc' : (ks.isEmpty || ks.any (· == "")) = false := Bool.eq_false_iff.mpr hc
+          simp only [hc', Bool.false_eq_true, if_false]
+          simp only [Bool.or_eq_false_iff] at hc'
+          obtain ⟨b1, b2, b3⟩ := bulkByGets_ok hU s hi ks hc'.2
+          exact ⟨by rw [b1], b2, b3⟩
+    | _ => exact ⟨hU.out_eq s _ hi hw, hU.abs_eq s _ hi hw, hU.inv_pres s _ hi hw⟩
+  exact ⟨fun s op hi hw => (key s op hi hw).1, fun s op hi hw => (key s op hi hw).2.1, fun s op hi hw => (key s op hi hw).2.2⟩
+
+end Formatted
+
+/-! ## every stack of wrappers, of every depth -/
+
+/-- a cache must not be more durable than the provider it caches (a persistent cache over a volatile main
+    provider would outlive the data) -/
+def Stack.WF : Stack → Prop
+  | .mem => True
+  | .ldb => True
+  | .cached m c => m.WF ∧ c.WF ∧ (m.volatile = true → c.volatile = true)
+  | .batched _ u => u.WF
+  | .formatted _ u => u.WF
+
+def Stack.abs : (st : Stack) → st.machine.σ → Store
+  | .mem => id
+  | .ldb => id
+  | .cached m _ => fun s => m.abs s.1
+  | .batched _ u => Batched.abs u.abs
+  | .formatted _ u => u.abs
+
+def Stack.inv : (st : Stack) → st.machine.σ → Prop
+  | .mem => NoDup
+  | .ldb => fun _ => True
+  | .cached m c => Cached.Inv m.inv c.inv m.abs c.abs
+  | .batched _ u => Batched.Inv u.inv
+  | .formatted _ u => u.inv
+
+/-- **every well-formed stack of wrappers over mem / LevelDB refines the contract** — induction on the stack, so
+    every depth (not "up to 3") -/
+theorem stack_refines : ∀ st : Stack, st.WF → Refines st.volatile st.machine.step st.inv st.abs
+  | .mem, _ => mem_refines
+  | .ldb, _ => ldb_refines
+  | .cached m c, h => Cached.cached_refines (stack_refines m h.1) (stack_refines c h.2.1) h.2.2
+  | .batched n u, h => Batched.batched_refines (stack_refines u h) n
+  | .formatted d u, h => Formatted.formatted_refines (stack_refines u h) d
+
+/-- a freshly opened stack is empty, and its invariant holds -/
+theorem stack_init : ∀ st : Stack, st.inv st.machine.init ∧ st.abs st.machine.init = [] ∧ TagsOK (st.abs st.machine.init)
+  | .mem => ⟨by simp [Stack.inv, Stack.machine, Mem.machine, NoDup], rfl, by intro e he; cases he⟩
+  | .ldb => ⟨trivial, rfl, by intro e he; cases he⟩
+  | .cached m c => by
+      obtain ⟨m1, m2, m3⟩ := stack_init m
+      obtain ⟨c1, c2, _⟩ := stack_init c
+      exact ⟨Cached.Inv.of_empty_cache _ _ m1 c1 m3 c2, m2, m3⟩
+  | .batched n u => by
+      obtain ⟨u1, u2, u3⟩ := stack_init u
+      refine ⟨⟨u1, rfl⟩, ?_, ?_⟩
+      · simpa [Stack.abs, Batched.abs, Stack.machine, Batched.machine] using u2
+      · intro e he
+        have : Stack.abs (.batched n u) (Stack.machine (.batched n u)).init = [] := by
+          simpa [Stack.abs, Batched.abs, Stack.machine, Batched.machine] using u2
+        rw [this] at he; cases he
+  | .formatted d u => stack_init u
+
+/-- **C11, for every history**: any sequence of in-contract operations on any well-formed stack returns exactly
+    what the documented contract prescribes, starting from the empty store -/
+theorem C11_stack_history (st : Stack) (hwf : st.WF) (ops : List Op) (hw : ∀ op ∈ ops, op.wf = true) :
+    (run st.machine.step st.machine.init ops).2 = (run (step st.volatile) [] ops).2 := by
+  have h := (stack_refines st hwf).run_eq st.machine.init (stack_init st).1 ops hw
+  rw [(stack_init st).2.1] at h
+  exact h
+
+/-- **"including when the wrapped provider already holds data"**: a caching wrapper with an empty cache over ANY
+    valid state `m` of ANY conforming main provider answers every history like the Spec started from `m`'s content -/
+theorem C11_cached_prepopulated {M C : Machine} {volM volC : Bool} {invM : M.σ → Prop} {invC : C.σ → Prop}
+    {absM : M.σ → Store} {absC : C.σ → Store}
+    (hM : Refines volM M.step invM absM) (hC : Refines volC C.step invC absC) (hvol : volM = true → volC = true)
+    (m : M.σ) (c : C.σ) (hm : invM m) (hc : invC c) (ht : TagsOK (absM m)) (he : absC c = [])
+    (ops : List Op) (hw : ∀ op ∈ ops, op.wf = true) :
+    (run (Cached.step M C) (m, c) ops).2 = (run (step volM) (absM m) ops).2 :=
+  (Cached.cached_refines hM hC hvol).run_eq (m, c) (Cached.Inv.of_empty_cache m c hm hc ht he) ops hw
+
+/-- likewise for the batching wrapper: any valid state of any conforming provider, nothing queued yet -/
+theorem C11_batched_prepopulated {U : Machine} {vol : Bool} {invU : U.σ → Prop} {absU : U.σ → Store}
+    (hU : Refines vol U.step invU absU) (limit : Int) (u : U.σ) (hu : invU u)
+    (ops : List Op) (hw : ∀ op ∈ ops, op.wf = true) :
+    (run (Batched.step U limit) ⟨u, []⟩ ops).2 = (run (step vol) (absU u) ops).2 :=
+  (Batched.batched_refines hU limit).run_eq ⟨u, []⟩ ⟨hu, rfl⟩ ops hw
+
+/-! ## non-vacuity and the repaired defects as closed examples -/
+
+/-- the history of C11-F1 (read fills the cache, then a tag read) now agrees with the Spec -/
+example : (run (Cached.step Mem.machine Mem.machine) ([⟨"k", [1], [⟨"a", "1"⟩]⟩], []) [.get "k", .getTags "k"]).2
+    = [.val [1], .tags [⟨"a", "1"⟩]] := by decide
+
+/-- C11-F2: two criteria on one tag name -/
+example : (run Mem.step [⟨"k", [1], [⟨"a", "2"⟩]⟩] [.query (some [.nameValue "a" "1", .nameValue "a" "2"])]).2
+    = [.rows []] := by decide
+
+/-- a depth-3 stack satisfies the hypotheses -/
+example : (Stack.cached (.batched 2 (.cached .mem .mem)) .mem).WF := by simp [Stack.WF, Stack.volatile]
+
+/-- a put queued behind a delete in a batch of limit 5 is visible to the next read -/
+example : (run (Stack.batched 5 .mem).machine.step (Stack.batched 5 .mem).machine.init
+    [.put "k" (some [1]) [], .delete "k", .put "k" (some [2]) [], .get "k"]).2 = [.ok, .ok, .ok, .val [2]] := by decide
+
 end C11
